@@ -143,6 +143,59 @@ static int v_unhex(const char *s, unsigned char *out, size_t max)
 	return (int)n;
 }
 
+/* tiny JSON field readers for replay files written by the orchestrator (flat objects only) */
+static char *v_read_file(const char *path)
+{
+	FILE *f = fopen(path, "r");
+	static char buf[1 << 18];
+	size_t n;
+
+	if (!f)
+		return NULL;
+	n = fread(buf, 1, sizeof(buf) - 1, f);
+	buf[n] = 0;
+	fclose(f);
+	return buf;
+}
+
+static bool v_json_long(const char *json, const char *field, long long *out)
+{
+	char pat[96];
+	const char *p;
+
+	snprintf(pat, sizeof(pat), "\"%s\"", field);
+	p = strstr(json, pat);
+	if (!p)
+		return false;
+	p += strlen(pat);
+	while (*p == ' ' || *p == ':')
+		p++;
+	*out = strtoll(p, NULL, 10);
+	return true;
+}
+
+static bool v_json_str(const char *json, const char *field, char *out, size_t outlen)
+{
+	char pat[96];
+	const char *p;
+	size_t n = 0;
+
+	snprintf(pat, sizeof(pat), "\"%s\"", field);
+	p = strstr(json, pat);
+	if (!p)
+		return false;
+	p += strlen(pat);
+	while (*p == ' ' || *p == ':')
+		p++;
+	if (*p != '"')
+		return false;
+	p++;
+	while (*p && *p != '"' && n + 1 < outlen)
+		out[n++] = *p++;
+	out[n] = 0;
+	return true;
+}
+
 /* ---------------------------------------------------------------- hashing / visited set */
 struct vhash {
 	uint64_t a, b;
@@ -536,6 +589,7 @@ static void v_supervise(void (*worker)(void), double hang_s, const char *scratch
 	char errpath[512];
 	struct vviol died[V_MAX_SKIP];
 	int ndied = 0;
+	bool gave_up = false;
 
 	VS = mmap(NULL, sizeof(*VS), PROT_READ | PROT_WRITE, MAP_SHARED | MAP_ANONYMOUS, -1, 0);
 	if (VS == MAP_FAILED) {
@@ -611,7 +665,7 @@ static void v_supervise(void (*worker)(void), double hang_s, const char *scratch
 
 		v_first_error_line(errpath, errline, sizeof(errline));
 		v_death_token(errline, status, hang, tok, sizeof(tok));
-		if (!VS->crumb_valid || ndied >= V_MAX_SKIP - 1) {
+		if (!VS->crumb_valid) {
 			fprintf(stderr, "harness worker died outside a case (%s): %s\n", tok, errline);
 			FILE *f = fopen(errpath, "r");
 
@@ -628,10 +682,25 @@ static void v_supervise(void (*worker)(void), double hang_s, const char *scratch
 		snprintf(key, sizeof(key), "%s|%s", VS->crumb_key, tok);
 		snprintf(what, sizeof(what), "%s while running the case: %s", hang ? "no progress (hang)" : "process died",
 			 errline[0] ? errline : tok);
-		died[ndied].key = strdup(key);
-		died[ndied].what = strdup(what);
-		died[ndied].replay = strdup(VS->crumb_replay);
-		ndied++;
+		int di;
+
+		for (di = 0; di < ndied; di++)
+			if (!strcmp(died[di].key, key))
+				break;
+		if (di < ndied) {
+			died[di].count++;
+		} else {
+			died[ndied].key = strdup(key);
+			died[ndied].what = strdup(what);
+			died[ndied].replay = strdup(VS->crumb_replay);
+			died[ndied].count = 1;
+			ndied++;
+		}
+		if (VSKIP.n >= V_MAX_SKIP - 1) {
+			/* too many deaths: stop exploring, report what was seen; the run is not exhaustive */
+			gave_up = true;
+			break;
+		}
 		VSKIP.replay[VSKIP.n++] = strdup(VS->crumb_replay);
 	}
 	unlink(errpath);
@@ -640,6 +709,16 @@ static void v_supervise(void (*worker)(void), double hang_s, const char *scratch
 	static struct vbuf merged;
 
 	vb_reset(&merged);
+	if (gave_up) {
+		/* no worker result: synthesize one holding only the deaths */
+		vb_puts(&merged, "{\"harness\":");
+		vb_jstr(&merged, VR.harness ? VR.harness : "?");
+		vb_printf(&merged, ",\"exhaustive\":false,\"notes\":\" [the worker died %d times; exploration abandoned, only the deaths are reported]\",\"counters\":{\"states\":%d,\"transitions\":%d,\"executions\":%d},\"samples\":[%s],\"violations_dropped\":0,\"violations\":[]}",
+			  VSKIP.n + 1, VSKIP.n + 1, VSKIP.n + 1, VSKIP.n + 1, died[0].replay);
+		VS->res_len = merged.len;
+		memcpy(VS->res, merged.p, merged.len + 1);
+		vb_reset(&merged);
+	}
 	if (ndied == 0) {
 		vb_putn(&merged, VS->res, VS->res_len);
 	} else {
@@ -657,7 +736,7 @@ static void v_supervise(void (*worker)(void), double hang_s, const char *scratch
 			vb_jstr(&merged, died[i].key);
 			vb_puts(&merged, ",\"what\":");
 			vb_jstr(&merged, died[i].what);
-			vb_printf(&merged, ",\"count\":1,\"replay\":%s}", died[i].replay);
+			vb_printf(&merged, ",\"count\":%ld,\"replay\":%s}", died[i].count, died[i].replay);
 			if (i + 1 < ndied || *p != ']')
 				vb_puts(&merged, ",");
 		}
